@@ -175,6 +175,10 @@ def run(chk):
                 pairs = [(a_, b_) for a_ in base for b_ in base if a_ != b_]
             followups = ['orbit.set_eccentricity', 'world.set_spin_frequency'] if chk.tier == 'quick' else ['orbit.set_eccentricity', 'world.set_spin_frequency', 'world.set_obliquity', 'orbit.set_semi_major_axis',
                                                                                                    'world.set_state(eccentricity)', 'orbit.set_state(eccentricity)']
+            # a change stored with run_updates=False is applied by the next change that makes the tides recompute; with obliquity tides off an obliquity change
+            # recomputes nothing (by design), so it is not a follow-up that the deferred value can be expected to ride on
+            if not obliq_on:
+                followups = [f_ for f_ in followups if 'obliquity' not in f_]
             pairs = pairs + [(d_, f_) for d_ in DEFERRED for f_ in followups]
             seqs = [(m,) for m in singles] + pairs
             for seq in seqs:
